@@ -634,9 +634,14 @@ def drive_relaunch_cli(job, case, mon):
     with open(path, "w", encoding="utf-8") as fh:
         yaml.dump(doc, fh, Dumper=_NoAliasDumper(yaml), sort_keys=False)
     del doc, context
+    import contextlib
+    import io
+
     for k in range(1, job["n"] + 1):
         try:
-            cli.main(["run", path, "--quiet", "--context", "c18_extra=2.5", "--set", "trace.options.detail=hash"])
+            # the host captures each launch's console output in its own buffer (a notebook cell, a test, a web worker)
+            with contextlib.redirect_stdout(io.StringIO()), contextlib.redirect_stderr(io.StringIO()):
+                cli.main(["run", path, "--context", "c18_extra=2.5", "--set", "trace.options.detail=hash"] + (["--quiet"] if k % 2 else []))
         except SystemExit as exc:
             if (exc.code or 0) != 0:
                 raise RuntimeError(f"semantiva run exited with {exc.code}")
